@@ -207,6 +207,31 @@ def run(case):
                         srt = close(np.sort(got), np.sort(want), True)
                         out.fail("import:particle_order_changed" if srt else f"import:field_{em}_differs", f"row {i}: {got[i]!r} vs {want[i]!r}")
                         break
+    # the converter's own output file and its update_coordinates switch: the file holds the returned list; updating moves
+    # the integer part of the shift into x,y,z and leaves the complete position where it was
+    if im == "stopgap2emmotl" and ok and not out.violations:
+        ok, b3 = call(out, "stopgap2emmotl(output)", lambda: cryomotl.stopgap2emmotl(star_path, output_motl_path="back.em"))
+        if ok:
+            out.check(np.array_equal(b3.df[C].to_numpy(dtype=float), back.df[C].to_numpy(dtype=float), equal_nan=True), "import:result_changes_with_output_path", "")
+            bad = oracle.em_motl_mismatch("back.em", b3.df)
+            out.check(bad is None, f"import:output_em_file_{bad}", "")
+        ok, b4 = call(out, "stopgap2emmotl(update_coordinates)", lambda: cryomotl.stopgap2emmotl(star_path, update_coordinates=True))
+        if ok and out.check(len(b4.df) == n, "import_updated:row_count", f"{len(b4.df)}"):
+            out.label("import_with_update_coordinates")
+            X = b4.df[["x", "y", "z"]].to_numpy(dtype=float)
+            S = b4.df[["shift_x", "shift_y", "shift_z"]].to_numpy(dtype=float)
+            P0 = back.df[["x", "y", "z"]].to_numpy(dtype=float) + back.df[["shift_x", "shift_y", "shift_z"]].to_numpy(dtype=float)
+            out.check(bool(np.all(X == np.round(X))), "import_updated:xyz_not_integral", "")
+            out.check(bool(np.all(np.abs(S) <= 0.5 + 1e-9 * np.maximum(1.0, np.abs(P0)))), "import_updated:shift_exceeds_half", lambda: f"{np.abs(S).max()!r}")
+            out.check(bool(np.all(np.abs(X + S - P0) <= 1e-9 * np.maximum(1.0, np.abs(P0)))), "import_updated:complete_position_moved", lambda: f"{np.abs(X + S - P0).max()!r}")
+            rest = [c_ for c_ in C if c_ not in ("x", "y", "z", "shift_x", "shift_y", "shift_z")]
+            out.check(np.array_equal(b4.df[rest].to_numpy(dtype=float), back.df[rest].to_numpy(dtype=float), equal_nan=True), "import_updated:other_field_changed", "")
+    # a STOPGAP list written under an .em name is the plain EM form of its table
+    if im == "class_path" and ok and not out.violations:
+        ok_e, _ = call(out, "write_out(.em)", lambda: back.write_out("as_em.em"))
+        if ok_e:
+            bad = oracle.em_motl_mismatch("as_em.em", back.df)
+            out.check(bad is None, f"write_em:file_{bad}", "")
     # a list loaded from STOPGAP form is exported again after update_coordinates: the file must hold the updated table
     if im == "class_path" and not out.violations:
         ok, again = call(out, "StopgapMotl(path)", lambda: cryomotl.StopgapMotl(star_path))
